@@ -36,17 +36,74 @@ class BoundedOnly(Exception):
     pass
 
 
-def bounded_only_if_restricted_choices(k, skel, clauses):
+# restricted-choice skeletons for which the panel / law-of-motion / targets contracts go through deductively
+# (create_choice_segments is used through its contract); the others stay bounded stand-ins
+DEDUCTIVE_WITH_RESTRICTED_CHOICES = ("retirement-filter", "two-restricted-states-crossed-filters")
+
+
+def bounded_only_if_restricted_choices(k, skel, clauses, deductive_ok=False):
     """With filter-restricted choices the simulation builds a data state-choice space whose row <-> (agent,
     combination) correspondence and segment numbering need counting arguments that were not mechanised:
     these skeletons are checked by the bounded stand-in only (real code, sampled small inputs), and their
     clauses are never counted as proved."""
     if k.mode == "native" or not Layout(skel).RC:
         return False
+    import os
+
+    if os.environ.get("PYVC_FULL_SIM"):
+        return False
+    if deductive_ok and skel.label.split("~")[0] in DEDUCTIVE_WITH_RESTRICTED_CHOICES:
+        return False
     from pyvc.ctx import cur
 
     cur().memo.setdefault("bounded_clauses", set()).update(clauses)
     return True
+
+
+def install_choice_segments_contract(k, world):
+    """contract substitution for create_choice_segments (its own contract: `choice_segments_contract`):
+    requires that every agent keeps at least one (agent, combination) pair -- an obligation at the call site
+    -- and then has one segment per agent"""
+    import z3
+
+    from pyvc.ctx import cur
+    from pyvc.values import conc, zdim
+
+    qn = "lcm.simulate.create_choice_segments"
+    old = world.overrides.get(qn)
+
+    def ov(clo, args, kwargs):
+        ba = clo._c.sig.bind(*args, **kwargs)
+        mask, n = ba.arguments["mask"], ba.arguments["n_sparse_states"]
+        del world.overrides[qn]
+        try:
+            out = clo(*args, **kwargs)
+        finally:
+            world.overrides[qn] = ov
+        ctx = cur()
+        N = mask.zshape[0]
+        fac = ctx.memo.get("products", {}).get(N.hash())
+        C = None
+        if fac is not None and len(fac) == 2:
+            C = conc(fac[1])
+        if C is None:
+            return out  # not the (agents x combinations) layout: keep the body's result
+        i = z3.Int(ctx.fresh("agent"))
+        nz = zdim(n)
+        from pyvc.stubs.jnp_impl import _forall
+
+        ctx.prove_then_assume("every-agent-keeps-at-least-one-admissible-combination", _forall([i], z3.Implies(z3.And(i >= 0, i < nz), z3.Or(*[mask.get((i * C + c,)) for c in range(C)])), dims=[nz]), "pre")
+        return {"segment_ids": out["segment_ids"], "num_segments": n}
+
+    world.overrides[qn] = ov
+
+    def restore():
+        if old is None:
+            world.overrides.pop(qn, None)
+        else:
+            world.overrides[qn] = old
+
+    return restore
 
 
 def run_simulation(k, inst, targets=None, via_solve_model=False):
@@ -58,6 +115,7 @@ def run_simulation(k, inst, targets=None, via_solve_model=False):
     restores = []
     if sym:
         restores.append(install_overrides(k, k.world))
+        restores.append(install_choice_segments_contract(k, k.world))
         S.opaque, r2 = install_opaque_uf(k, k.world, skel)
         restores.append(r2)
         S.spaces, r3 = record_spaces(k, k.world)
@@ -109,12 +167,19 @@ def run_simulation(k, inst, targets=None, via_solve_model=False):
                 vf.append(k.array(f"V{t}", shape, "float"))
         else:
             solve, _ = k.call_fn(k.fn("lcm.entry_point.get_lcm_function"), model=b.model, targets="solve", jit=False)
-            vf = k.native.to_native([x for x in k.call_fn(solve, P)])
+            sol = k.call_fn(solve, P)
+            import numpy as np
+
+            from pyvc.contract import SkipInstance
+
+            if isinstance(sol, Raised) or not all(np.all(np.isfinite(np.asarray(x))) for x in sol):
+                # supported models have a feasible choice in every grid state and finite values
+                raise SkipInstance("the solution of the sampled model is not finite")
+            vf = k.native.to_native([x for x in sol])
         S.vf = vf
         seed = k.int("seed", ge=0, le=5)
         S.seed = seed
-        if not sym:
-            feasible_choice_exists(k, S)
+        feasible_choice_exists(k, S)
         kwargs = dict(initial_states=init, additional_targets=targets, seed=seed)
         if via_solve_model:
             S.solve_calls = []
@@ -179,6 +244,23 @@ def feasible_choice_exists(k, S):
                     raise SkipInstance("a restricted state without admissible choice")
         return
 
+    # the same precondition with the restricted-state labels universally quantified (the form in which it is
+    # used for an agent's symbolic state)
+    import z3
+
+    from pyvc.values import T as _T
+
+    vs = [z3.Int(f"any.{v}") for v in lay.RS]
+    for t in range(skel.n_periods):
+        alts = []
+        for rc in itertools.product(*[range(skel.n_labels(v)) for v in lay.RC]):
+            env = {**{v: _T(x) for v, x in zip(lay.RS, vs)}, **dict(zip(lay.RC, rc)), "_period": t}
+            alts.append(L._b(L.And(*[spec_eval(k, S.b, f, env) for f in skel.names_with_role("filter")])))
+        rng = z3.And(*[z3.And(x >= 0, x < skel.n_labels(v)) for v, x in zip(lay.RS, vs)]) if vs else z3.BoolVal(True)
+        body = z3.Implies(rng, z3.Or(*alts))
+        from pyvc.ctx import cur
+
+        cur().assume(z3.ForAll(vs, body) if vs else body, tag="requires")
     bm = Bellman(k, S.b, S.im, 0, S.P, None, None)
     for t in range(skel.n_periods):
         bm.t = t
@@ -197,7 +279,7 @@ def panel_contract(k, inst):
     initial_state_id) in period-major order, one column for the value, one per choice, one per state and
     '_period'; every column has that many rows; '_period' of row (t, i) is t; the states of row (0, i) are
     the supplied initial states of agent i."""
-    if bounded_only_if_restricted_choices(k, inst.skel, {"simulation-runs", "columns", "row-count", "index-is-period-major-product", "period-column", "period-0-states-are-the-initial-states"}):
+    if bounded_only_if_restricted_choices(k, inst.skel, {"simulation-runs", "columns", "row-count", "index-is-period-major-product", "period-column", "period-0-states-are-the-initial-states"}, deductive_ok=True):
         return
     S = run_simulation(k, inst)
     if isinstance(S, Raised):
@@ -233,7 +315,7 @@ def law_of_motion_contract(k, inst):
     at the SAME agent's period-t states, reported choices, the period index t and the parameters (own
     parameters only); for a stochastic state the new value is a label of the state's grid that has positive
     probability in the transition row selected by the agent's period-t dependency variables."""
-    if bounded_only_if_restricted_choices(k, inst.skel, {"simulation-runs", "next-state-is-transition-function-of-own-period-t-row", "stochastic-next-state-is-a-label-of-positive-probability"}):
+    if bounded_only_if_restricted_choices(k, inst.skel, {"simulation-runs", "next-state-is-transition-function-of-own-period-t-row", "stochastic-next-state-is-a-label-of-positive-probability"}, deductive_ok=True):
         return
     S = run_simulation(k, inst)
     if isinstance(S, Raised):
@@ -348,7 +430,7 @@ def targets_contract(k, inst):
     the row's states, choices, period and the parameters."""
     skel = inst.skel
     targets = [n for n, _, r in skel.functions if r in ("aux", "utility", "constraint", "next")]
-    if bounded_only_if_restricted_choices(k, skel, {"simulation-runs", "one-column-per-target", "target-is-the-model-function-at-the-row"}):
+    if bounded_only_if_restricted_choices(k, skel, {"simulation-runs", "one-column-per-target", "target-is-the-model-function-at-the-row"}, deductive_ok=True):
         return
     S = run_simulation(k, inst, targets=targets)
     if isinstance(S, Raised):
@@ -661,3 +743,64 @@ def agents_independent_bounded_contract(k, inst):
     k.ensures("duplicating-an-agent-duplicates-its-path", all(np.allclose(rd[c], base[c][:, dup], equal_nan=True) for c in cols))
     rk = run(dict(reversed(list(init_np.items()))))
     k.ensures("key-order-of-initial-states-is-irrelevant", all(np.allclose(rk[c], base[c], equal_nan=True) for c in cols))
+
+
+# ----------------------------------------------------------------------------- create_choice_segments
+@contract("lcm.simulate.create_choice_segments", family=lambda tier: [type("CInst", (), {"C": c, "label": f"combinations={c}"})() for c in ((1, 2, 3) if tier == "quick" else (1, 2, 3, 4, 6))], props=("C08", "C02"))
+def choice_segments_contract(k, inst):
+    """rows of the data state-choice space are the kept (agent, combination) pairs in row-major order: the
+    segment id of the k-th kept pair is its agent; if every agent keeps at least one pair the number of
+    segments is the number of agents (library lemma on `unique`: a sequence that takes every value of [0, n)
+    and no other has n distinct values; premises discharged here), and the ids are sorted."""
+    C = inst.C
+    n = k.int("n_agents", ge=1, le=3, size=True)
+    import itertools
+
+    mask = k.array("mask", [n * C], "bool", gen=lambda rng, shp: [x for _ in range(shp[0] // C) for x in _one_true_row(rng, C)])
+    every_agent_keeps_one = L.forall([n], lambda i: L.Or(*[k.at(mask, (i[0] * C + c,)) for c in range(C)]))
+    k.requires(every_agent_keeps_one)
+    out = k.call(mask, n)
+    if isinstance(out, Raised):
+        k.fail("no-exception", repr(out))
+        return
+    ids, num = out["segment_ids"], out["num_segments"]
+    if k.mode == "native":
+        import numpy as np
+
+        m = np.asarray(mask)
+        want = [p // C for p in range(len(m)) if m[p]]
+        k.ensures("segment-id-of-a-kept-pair-is-its-agent", [int(x) for x in np.asarray(ids)] == want)
+        k.ensures("one-segment-per-agent", int(num) == int(n))
+        return
+    import z3
+
+    from pyvc.ctx import cur
+    from pyvc.indexing import mask_selector
+    from pyvc.values import T
+
+    ctx = cur()
+    ms = mask_selector(mask)
+    K = T(ms.K)
+    k.ensures("one-id-per-kept-pair", L.And(len(k.shape(ids)) == 1, L.eq(k.shape(ids)[0], K)))
+    for (row,) in k.indices([K], name="row"):
+        p = ms.sel(row)[0]
+        k.ensures("segment-id-of-a-kept-pair-is-its-agent", T(ids.get((row.e,)) == p / C))
+    for (r1, r2) in k.indices([K, K], name="ord"):
+        k.ensures("ids-are-sorted", L.Implies(r1 <= r2, k.at(ids, (r1,)) <= k.at(ids, (r2,))))
+    # library lemma on unique (premises proved, conclusion assumed)
+    uniques = ctx.memo.get("uniques", [])
+    k.ensures("counts-distinct-segment-ids-once", len(uniques) == 1)
+    if len(uniques) != 1:
+        return
+    U, x = uniques[0]
+    k.ensures("lemma-premise:ids-in-range", L.forall([K], lambda j: L.And(T(x.get((j[0].e,))) >= 0, T(x.get((j[0].e,))) < n)))
+    k.ensures("lemma-premise:every-agent-occurs", L.forall([n], lambda i: L.exists([K], lambda j: L.eq(T(x.get((j[0].e,))), i[0]))))
+    ctx.assume(U == n.e, tag="math:card-of-range-of-a-surjection-onto-[0,n)")
+    ctx.trusted.add("library lemma (assumed, premises discharged): a sequence taking exactly the values 0..n-1 has n distinct values")
+    k.ensures("one-segment-per-agent", L.eq(num, n))
+
+
+def _one_true_row(rng, C):
+    row = [rng.random() < 0.5 for _ in range(C)]
+    row[rng.randrange(C)] = True
+    return row
